@@ -22,7 +22,7 @@ SPEC = {
         "zk/qndleq has no way for the verifier to state its security parameter: the check takes 128 (the value of the package's own tests) as the verifier's",
         "ot/simot draws its scalars and nonces from crypto/rand: only relations that hold for every draw are asserted",
     ],
-    "budget": {"quick": 900, "thorough": 3600},
+    "budget": {"quick": 900, "thorough": 5400},
 }
 
 MANIFEST = {
